@@ -407,6 +407,7 @@ def write_replay(rundir_keep, prop, name, payload):
 
 def shrink(spec, binp, line, rundir, want, budget=40):
     """Delta-debug the history's step list while `want(result)` keeps holding."""
+    budget = int(spec.get("shrink_budget", budget))   # per-property override (default 40 replays)
     hist = line["history"]
     key = spec.get("shrink_key", "Steps")
     if not isinstance(hist, dict) or key not in hist or not isinstance(hist[key], list):
